@@ -22,6 +22,7 @@ def run(ctx):
     out = C.run_harness(ctx, bins["resp"], ["--mode", "enum", "--maxlen", maxlen])
     exprs = []
     enum_total = 0
+    preamble = []
     for l in out.splitlines():
         if not l.startswith("{"):
             continue
@@ -30,11 +31,24 @@ def run(ctx):
         enum_total += len(codes)
         if "P" in d["codes"]:
             ctx.violations.append({"what": "RespParser::parse panicked on a byte string of length %d (index %d in canonical order over the alphabet)" % (d["len"], d["codes"].index("P")), "input": d["len"]})
+        # long literals are cut into chunks (a 38k-element list literal overflows coqc's stack)
+        names = []
+        for k in range(0, max(len(codes), 1), 1500):
+            nm = "codes_%d_%d" % (d["len"], k // 1500)
+            preamble.append("Definition %s : list N := %s." % (nm, C.coq_list([str(c) for c in codes[k:k + 1500]])))
+            names.append(nm)
+        preamble.append("Definition codes_%d : list N := %s." % (d["len"], " ++ ".join(names)))
         oks = ["(%d, %s, %d)" % (i, RC.value_term(v), c) for i, v, c in d["oks"]]
-        exprs.append(("enum%d" % d["len"], "(enum_len_ok %d %s, enum_codes_ok %d %s, enum_oks_ok %d %s)" % (
-            d["len"], C.coq_list([str(c) for c in codes]), d["len"], C.coq_list([str(c) for c in codes]), d["len"], C.coq_list(oks))))
+        onames = []
+        for k in range(0, max(len(oks), 1), 300):
+            nm = "oks_%d_%d" % (d["len"], k // 300)
+            preamble.append("Definition %s : list (N * value * N) := %s." % (nm, C.coq_list(oks[k:k + 300])))
+            onames.append(nm)
+        preamble.append("Definition oks_%d : list (N * value * N) := %s." % (d["len"], " ++ ".join(onames)))
+        exprs.append(("enum%d" % d["len"], "(enum_len_ok %d codes_%d, enum_codes_ok %d codes_%d, enum_oks_ok %d oks_%d)" % (
+            d["len"], d["len"], d["len"], d["len"], d["len"], d["len"])))
     evals += enum_total
-    res = C.coq_eval(ctx, "resp_enum", RC.HEADER, [e for _, e in exprs], scope="N_scope")
+    res = C.coq_eval(ctx, "resp_enum", RC.HEADER, [e for _, e in exprs], scope="N_scope", preamble="\n".join(preamble))
     enum_bad = 0
     if res is None:
         ctx.broken.append("correspondence (exhaustive enumeration) did not evaluate in Coq")
